@@ -10,7 +10,7 @@
 		g_cb_arg_is_task = nondet_bool(); g_cb_redo_done = false;          \
 		g_cv_task0 = nondet_ptr(); g_cv_task1 = NULL; g_cv_sched = nondet_ptr(); g_cv_drain = nondet_ptr(); \
 		VP_CNT(g_wk_task0); VP_CNT(g_wk_task1); VP_CNT(g_wk_sched); VP_CNT(g_wk_sched_all); \
-		VP_CNT(g_wk_drain); VP_CNT(g_cv_waits); VP_CNT(g_cv_fini); VP_CNT(g_mtx_fini); \
+		VP_CNT(g_wk_drain); g_cv_waited = nondet_bool(); g_q_empty = nondet_bool(); g_worker_unit = false; VP_CNT(g_cv_fini); VP_CNT(g_mtx_fini); \
 		VP_CNT(g_thr_init); VP_CNT(g_thr_run); VP_CNT(g_thr_fini);         \
 		g_thr_init_fail_at = nondet_int(); g_thr_init_rv = nondet_int();   \
 		VP_CNT(g_free_calls); VP_CNT(g_alloc_ok);                          \
@@ -24,3 +24,52 @@ void h_task_exec(void) { nni_task *t; VP_HAVOC_GHOSTS(); nni_task_exec(t); VP_CA
 void h_task_dispatch(void) { nni_task *t; VP_HAVOC_GHOSTS(); nni_task_dispatch(t); VP_CANARY(); }
 void h_task_wait(void) { nni_task *t; VP_HAVOC_GHOSTS(); nni_task_wait(t); VP_CANARY(); }
 void h_task_fini(void) { nni_task *t; VP_HAVOC_GHOSTS(); nni_task_fini(t); VP_CANARY(); }
+
+/* ---- worker thread: skeleton of real objects, queue built with the real list code ---- */
+#define VP_NEW(T) ((T *) __CPROVER_allocate(sizeof(T), 0))
+static nni_task *vp_mk_task(bool queued)
+{
+	nni_task *t = VP_NEW(nni_task);
+	t->task_node.ln_next = NULL;
+	t->task_node.ln_prev = NULL;
+	t->task_cb           = vp_cb;
+	t->task_arg          = t;
+	t->task_tq           = g_tq;
+	t->task_cv.mtx       = &t->task_mtx.mtx; /* nni_cv_init */
+	t->task_prep         = nondet_bool();
+	if (queued) {
+		nni_list_append(&g_tq->tq_tasks, t);
+	}
+	return (t);
+}
+void h_taskq_thread(void)
+{
+	VP_HAVOC_GHOSTS();
+	g_worker_unit    = true;
+	g_cb_arg_is_task = true;
+#ifdef TQ_NQ
+	g_nq = TQ_NQ; /* constant case split (DESIGN section 9: list walks need a concrete skeleton) */
+#else
+	g_nq = nondet_size_t();
+	__CPROVER_assume(g_nq <= 2);
+#endif
+#ifdef TQ_MODE
+	g_cb_mode = TQ_MODE;
+#endif
+	g_tq = VP_NEW(nni_taskq);
+	NNI_LIST_INIT(&g_tq->tq_tasks, nni_task, task_node);
+	g_tq->tq_run          = nondet_bool();
+	g_tq->tq_sched_cv.mtx = &g_tq->tq_mtx.mtx;
+	g_tq->tq_wait_cv.mtx  = &g_tq->tq_mtx.mtx;
+	g_t0         = vp_mk_task(g_nq >= 1);
+	g_t1         = vp_mk_task(g_nq >= 2);
+	g_task       = NULL;
+	g_cv_task0   = &g_t0->task_cv;
+	g_cv_task1   = &g_t1->task_cv;
+	g_cv_sched   = &g_tq->tq_sched_cv;
+	g_cv_drain   = &g_tq->tq_wait_cv;
+	g_thr        = VP_NEW(struct nni_taskq_thr);
+	g_thr->tqt_tq = g_tq;
+	nni_taskq_thread(g_thr);
+	VP_CANARY();
+}
